@@ -232,7 +232,8 @@ def _refexprs():
     local = {"WOuter.WInner": W.WOuter.WInner, "list[WOuter.WInner]": list[W.WOuter.WInner], "dict[str, WOuter.WInner]": dict[str, W.WOuter.WInner],
              "WPoint | None": W.WPoint | None, "WPoint | WOther": W.WPoint | W.WOther, "tuple[WPoint, int]": tuple[W.WPoint, int],
              "list[WPoint]": list[W.WPoint], "WOuter": W.WOuter, "Point | None": W.Point | None, "list[Point]": list[W.Point],
-             "Literal['r', 'w']": t.Literal["r", "w"], "LiteralText": W.LiteralText, "list[Literal['r', 'w']]": list[t.Literal["r", "w"]]}
+             "Literal['r', 'w']": t.Literal["r", "w"], "LiteralText": W.LiteralText, "list[Literal['r', 'w']]": list[t.Literal["r", "w"]],
+             "Counter": W.Counter, "list[Counter]": list[W.Counter], "dict[str, Counter]": dict[str, W.Counter], "Text": W.Text}
     qual = {f"{Q}.WOuter.WInner": W.WOuter.WInner, f"{Q}.WPoint | {Q}.WOther": W.WPoint | W.WOther, f"{Q}.WPoint | None": W.WPoint | None,
             f"{Q}.WPoint": W.WPoint, f"{Q}.WOuter": W.WOuter}
     out = [("here", r, T) for r, T in local.items()] + [("qualified", r, T) for r, T in qual.items()]
@@ -254,9 +255,9 @@ def make_refexpr(which, timeout):
     issued from the defining module and - fully qualified - from another module; against the evaluated type."""
     W = wrapmod
     wire = [{"x": 1, "y": 2}, {"x": "1"}, {"name": "n"}, None, [{"x": 1}], {"k": {"x": "3"}}, [{"x": 1, "y": 2}, 1], "abc", 7,
-            {"inner": {"x": "1"}}, '{"x": 1, "y": 2}', [{"x": 1, "y": "2"}], "r", ["w", "r"], {"body": 5}]
+            {"inner": {"x": "1"}}, '{"x": 1, "y": 2}', [{"x": 1, "y": "2"}], "r", ["w", "r"], {"body": 5}, "5", ["6", 7], {"k": "8"}]
     vals = [W.WPoint(1, 2), W.WOther("n"), W.WOuter.WInner(1), None, [W.WOuter.WInner(1)], {"k": W.WOuter.WInner(2)}, (W.WPoint(1, 2), 3),
-            [W.WPoint(1, 2)], W.WOuter(W.WOuter.WInner(1)), M.Point(1, 2), [M.Point(1, 2)], "r", "x", ["w"], W.LiteralText("b")]
+            [W.WPoint(1, 2)], W.WOuter(W.WOuter.WInner(1)), M.Point(1, 2), [M.Point(1, 2)], "r", "x", ["w"], W.LiteralText("b"), 5, [6], {"k": 7}]
 
     def lift(x, origin):
         return [x] if origin == "alias_str_in_list" else x
